@@ -326,6 +326,11 @@ func reportProblem(c *world.Case, v *ref.Verdict) string {
 }
 
 func c04(x *mon.Ctx) {
+	if !x.Quick() {
+		defer func() {
+			x.Fuzz("FuzzSignedCollateral", 200000) // mutated member texts, re-signed by the genuine signer: library accepts => reference accepts
+		}()
+	}
 	x.Level = "exploration"
 	x.Rule = "small-scope abstraction of the TCB algorithm, concretised with random SVNs and run through the full verification path with a freshly signed TCB Info: per level SGX in {lower, equal, fail@0/7/15} x PCE in {below, equal, above} x TDX in {lower, equal, fail@0/1/2/15} x 7 statuses; 1-level space exhaustively x TEE_TCB_SVN[1] in {0, n} x module in {absent, omitted, wrong id, 1 level x {below, equal, above} x 7 statuses}; 2-level space (396,900 ordered pairs) sampled (quick) or enumerated (thorough) with sampled modules incl. 2-level modules; identity fields {match, case variant, each single mismatch, mask hides / exposes the differing bit, short mask}; random 3-6 level lists beyond the abstraction. Oracle: reference evaluator written from the statement (library accepts => reference accepts) and 'no level matches => the reporting API returns an error'. distinct = distinct abstract configuration."
 	x.Assume = []string{"everything except the TCB Info content is honest and was accepted in the unmodified twin"}
